@@ -51,7 +51,7 @@ def h09_timeout_cleanup(S):
     S.check("no-stall", out["returned"])
 
 
-def h09(S, n_jobs=2, queues=1, max_limit=3, dmax_us=3000, late=False, backend="mem", late_max_us=None, fixed_d_us=None, self_cancel=False):
+def h09(S, n_jobs=2, queues=1, max_limit=3, dmax_us=3000, late=False, backend="mem", late_max_us=None, fixed_d_us=None, self_cancel=False, foreign=False):
     from repid import Job, Router, Worker
     from repid.converter import BasicConverter
 
@@ -96,6 +96,9 @@ def h09(S, n_jobs=2, queues=1, max_limit=3, dmax_us=3000, late=False, backend="m
                     raise asyncio.CancelledError()
                 if fails[i]:
                     raise ValueError("x")
+        if foreign and S.flag("foreign_message_whose_topic_extends_a_served_one"):
+            # another service shares the queue; its topic merely begins like one of ours
+            await Job("job_" + qnames[0] + "_report", queue=qnames[0], args={"i": 99}, id_="foreign", _connection=w.conn).enqueue()
         n_pre = 0 if burst else (n_jobs - 1 if late else n_jobs)
         for i in range(n_pre):
             qn = qnames[i % queues]
@@ -182,10 +185,11 @@ HARNESSES = [
     ),
     Harness(
         name="H09-redis", scenario=h09, workers=16, budget_s=900,
-        params={"quick": {"n_jobs": 2, "queues": 1, "dmax_us": 250000, "max_limit": 2, "backend": "redis"},
-                "thorough": {"n_jobs": 3, "queues": 1, "dmax_us": 250000, "max_limit": 2, "backend": "redis"}},
+        params={"quick": {"n_jobs": 2, "queues": 1, "dmax_us": 250000, "max_limit": 2, "backend": "redis", "foreign": True},
+                "thorough": {"n_jobs": 3, "queues": 1, "dmax_us": 250000, "max_limit": 2, "backend": "redis", "foreign": True}},
         bounds={"broker": "real Redis broker/consumer (background fetch, prefetch buffer bounded by tasks_limit, pause lock) on the fake server",
-                "actor durations": "each any real in (0, 250 ms] (the consumer polls every 100 ms)", "tasks_limit": "[1, 2]", "jobs": "2 quick / 3 thorough"},
+                "actor durations": "each any real in (0, 250 ms] (the consumer polls every 100 ms)", "tasks_limit": "[1, 2]", "jobs": "2 quick / 3 thorough",
+                "shared queue": "with or without a foreign message whose topic extends a served topic"},
         functions=["connections/redis/consumer.py:_RedisConsumer.pause", "connections/redis/consumer.py:_RedisConsumer.backgroud_consume"],
         covers=["run-returned", "pause-observed"], stubs=["fake Redis server"]),
     Harness(
